@@ -98,7 +98,11 @@ def gen_workflow(rng: random.Random, opts=None):
                     if i < j:
                         cands.append({'t': t, 'out': out})
                         if rec not in ('R1', 'R1/$', 'R1/+P1') and rng.random() < opts.get('p_abs', 0.08):
-                            cands.append({'t': t, 'out': out, 'off': '^'})
+                            # C45 (additive): option abs_forms = other spellings of an absolute trigger
+                            # ('^+P1', 'icp+1' -> the literal point); default: '^' only, no extra draw
+                            # (only in a workflow whose single recurrence is P1, see the runahead note below)
+                            form = rng.choice(opts['abs_forms']) if opts.get('abs_forms') and recs == ['P1'] else '^'
+                            cands.append({'t': t, 'out': out, 'off': str(icp + 1) if form == 'icp+1' else form})
                     if rec not in ('R1', 'R1/$', 'R1/+P1') and rng.random() < opts.get('p_intercycle', 0.35):
                         cands.append({'t': t, 'out': out, 'off': rng.choice(offs)})
             if not cands or rng.random() < 0.15:
@@ -146,6 +150,13 @@ def gen_workflow(rng: random.Random, opts=None):
         if body:
             runtime += f'    [[{t}]]\n{body}'
     runahead = rng.choice([0, 1, 1, 2, 3])
+    future_abs = bool(opts.get('abs_forms')) and ('[^+' in graph_txt or f'[{icp + 1}]' in graph_txt)
+    if future_abs:
+        # C45 (additive, only with option abs_forms): 'foo[^+P1] => bar' gives bar a future prerequisite offset
+        # at the initial point; the future-offset extension of the runahead limit and the "prerequisite beyond
+        # the stop point" rule of spawn_task are outside Sched v1, so: every point is a sequence point (P1 only),
+        # the limit is wide enough never to bind, and no early stop point is configured
+        runahead = max(runahead, fcp - icp)
     special = ''
     seq_tasks = [t for t in sorted(mentioned) if rng.random() < opts.get('p_sequential', 0.12)]
     if seq_tasks:
@@ -153,6 +164,8 @@ def gen_workflow(rng: random.Random, opts=None):
     stop_line = ''
     if fcp - icp >= 2 and rng.random() < opts.get('p_stop', 0.15):
         stop_line = f'    stop after cycle point = {rng.randint(icp, fcp - 1)}\n'
+    if future_abs:
+        stop_line = ''
     run_opts = {}
     if fcp - icp >= 2 and rng.random() < opts.get('p_startcp', 0.15):
         run_opts['startcp'] = str(rng.randint(icp + 1, fcp - 1))
@@ -215,6 +228,15 @@ def gen_policy(rng, wf, kind='complete', opts=None):
         pol['poll_late'] = rng.random() < opts.get('p_poll_late', 0.0)
     if opts.get('noise') is not None and kind != 'complete':
         pol['p_noise'] = opts['noise']
+    if kind.startswith('cmd'):
+        # C06 (additive, default = the values above): another command mix / rate / number of restarts;
+        # applied after all draws, so the random sequence of a case is unchanged
+        for key in ('cmds', 'p_cmd'):
+            if opts.get(key) is not None:
+                pol[key] = opts[key]
+        if opts.get('restarts') is not None:
+            choices = list(opts['restarts'])
+            pol['restarts'] = choices[pol['restarts'] % len(choices)]
     return pol
 
 
